@@ -1,0 +1,13 @@
+//go:build !verif
+
+// Package simhook contains seams for the deterministic simulation harness in
+// /verif. Without the "verif" build tag every hook is the identity function.
+package simhook
+
+import "net"
+
+// Seed returns the session checksum seed to use.
+func Seed(v int32) int32 { return v }
+
+// Listeners returns the listeners a daemon should serve on.
+func Listeners(l []net.Listener) []net.Listener { return l }
